@@ -10,7 +10,6 @@
 #include "fiber_mutex.h"
 #include "fiber_semaphore.h"
 
-extern void vh_name_run_queues(void);
 
 static fiber_mutex_t mtx;
 static fiber_semaphore_t sem;
@@ -32,10 +31,7 @@ VH_NOINSTR int main(int argc, char** argv) {
   int k = atoi(argv[1]);
   vh_parse(argv[2]);
   fiber_manager_init(k);
-  vh_name_run_queues();
-  fiber_t* mainf = fiber_manager_get()->thread_fiber;
-  vr_obj(mainf, sizeof *mainf, "F0");
-  vr_reg(&mainf->state, sizeof mainf->state, "F0.state");
+  vh_rt_prepare();
   fiber_mutex_init(&mtx);
   /* posts by the script always outnumber waits (generator), plus slack */
   fiber_semaphore_init(&sem, 0);
